@@ -215,17 +215,20 @@ structure SideConditions (roots : List Cert) (cs : List Cert) : Prop where
   akiConsistent : ∀ c ∈ cs, AkiConsistent (roots ++ cs.tail) c
   /-- at most two signature checks per submitted certificate fit the budget of 100 -/
   budget : 2 * cs.length + 2 ≤ 100
-  /-- only the last submitted certificate may itself be a member of the trusted pool -/
-  onlyLastTrusted : ∀ c ∈ cs.dropLast, poolContains roots c = false
+  /-- a leaf that is followed by further certificates is not itself a member of the trusted pool
+  (`Verify` answers `[[leaf]]` at once for a trusted leaf); any *other* submitted certificate may be trusted -/
+  leafNotTrusted : ∀ l rest, cs = l :: rest → rest ≠ [] → poolContains roots l = false
   /-- records are determined by their bytes -/
   coherent : Coherent (cs ++ roots)
 
 /-- The submitted list is a valid linear path: linked certificate by certificate, every certificate that
-acts as an intermediate is a CA, and the last one is in the trusted pool or directly issued by a member of it. -/
+acts as an intermediate is a CA, and the last one is in the trusted pool or directly issued by a member of it
+that is not itself one of the submitted certificates (no issuance cycle). -/
 inductive Admissible (roots : List Cert) (sigOK : SigOracle) (cs : List Cert) : Prop
   | endsInPool (r z : Cert) : r ∈ roots → cs.getLast? = some z → z.id = r.id → Linked (Link sigOK) cs →
       (∀ x ∈ cs.tail.dropLast, IsInterCA x) → Admissible roots sigOK cs
-  | belowPool (r : Cert) : r ∈ roots → Linked (Link sigOK) (cs ++ [r]) → (∀ x ∈ cs.tail, IsInterCA x) → Admissible roots sigOK cs
+  | belowPool (r : Cert) : r ∈ roots → r.id ∉ cs.map (·.id) → Linked (Link sigOK) (cs ++ [r]) → (∀ x ∈ cs.tail, IsInterCA x) →
+      Admissible roots sigOK cs
 
 theorem verify_of_search {E : Env} {l : Cert} {T : List Cert} (hnot : poolContains E.roots l = false)
     (h : T ∈ (buildChains E fuel l [l] ⟨0, []⟩).chains) : ∃ chains, verify E l = .ok chains ∧ T ∈ chains := by
